@@ -43,6 +43,7 @@ type Config struct {
 	I8Type                   bool // the base type i8 (alias of byte in Thrift) as field / argument / return type
 	GeneratorDerivedNames    bool // type names shaped like the generators' own derived names: NewX, XArgs, XResult
 	ConstMapNonStringKeys    bool // every file gets a constant map<i32,string> / map<bool,..> with entries
+	ArgModifiers             bool // method arguments written with optional / required and with defaults
 	DefaultsFromConstants    bool // field defaults that name a constant of the same file (container and base types)
 }
 
@@ -1034,6 +1035,22 @@ func (g *gen) genService() *Service {
 		for j, na := 0, g.rng.Intn(g.cfg.MaxArgs+1); j < na; j++ {
 			id += 1 + g.rng.Intn(2)
 			a := &Field{ID: id, Name: g.fieldName(an), Type: g.fieldType(0, nil)}
+			if g.cfg.ArgModifiers {
+				switch g.rng.Intn(4) {
+				case 0:
+					a.Req = ReqOptional
+					g.feat("optional_argument")
+				case 1:
+					a.Req = ReqRequired
+					g.feat("required_argument")
+				}
+				if g.rng.Intn(2) == 0 {
+					if lit := g.literalFor(a.Type, 0); lit != nil {
+						a.Default = lit
+						g.feat("argument_default")
+					}
+				}
+			}
 			m.Args = append(m.Args, a)
 		}
 		switch r := g.rng.Intn(10); {
